@@ -15,8 +15,8 @@ META = {
                    "(an earlier run under another configuration), set_config_parameters(d) + the per-run initialisation "
                    "run on the dirty and on a clean instance; a surviving field is a candidate, reported only if the API "
                    "replay (run; set_config_parameters(d1); run - versus Cls(Config(**d1)), several d1) differs.",
-    "bounds": {"quick": "84 classes; ints in [v-3, v+3]; floats symbolic; list lengths 0..3",
-               "thorough": "same with ints in [v-6, v+6]"},
+    "bounds": {"quick": "84 classes; ints in [v-6, v+6]; floats symbolic; list lengths 0..3",
+               "thorough": "same with ints in [v-12, v+12]"},
     "outside": "pydantic's strict type errors (well-typed dictionaries only); that equal instance state implies equal "
                "runs relies on determinism of the methods in state + RNG (C07/C08)",
     "stubs": ["pydantic-lite (repository validators unchanged; conlist length metadata enforced)"],
@@ -297,7 +297,7 @@ def obligations(tier):
     obs = []
     for cname in optimizer_classes():
         obs.append(Ob(f"construct[{cname}]", ob_construct(cname), 60))
-        obs.append(Ob(f"params[{cname}]", ob_params(cname, 6 if th else 3), 300))
+        obs.append(Ob(f"params[{cname}]", ob_params(cname, 12 if th else 6), 300))
         obs.append(Ob(f"shapes[{cname}]", ob_list_lengths(cname), 120))
         obs.append(Ob(f"reconfigure[{cname}]", ob_reconfigure(cname), 60, refutation_only=True, api_replay_decides=True))
     obs.append(Ob("twin_vacuity", twin(), 60, expect_refuted=True))
